@@ -11,8 +11,15 @@ for pid in claimed:
     p = props[pid]
     text = 'Property %s: %s\n\nStatement: %s\n\nQuantifier (inputs, configurations): %s' % (pid, p['title'], p['statement'], p['quantifier']['text'])
     used = []
-    for m in sorted(glob.glob('/verif/seeded/%s-*/meta.json' % pid)):
-        used.append(json.load(open(m)).get('needs_to_manifest', ''))
+    sys.path.insert(0, os.path.dirname(os.path.abspath(__file__)))
+    import eval_seeds
+    for d in sorted(glob.glob('/verif/seeded/%s-*' % pid)):
+        mid = os.path.basename(d)
+        u = eval_seeds.NEEDS.get(mid)
+        if not u and os.path.exists(os.path.join(d, 'meta.json')):
+            u = json.load(open(os.path.join(d, 'meta.json'))).get('needs_to_manifest', '')
+        if u:
+            used.append(u)
     if used:
         text += '\n\nIdeas ALREADY explored by earlier rounds for this property - do NOT reuse them or close variants; find different sites, clauses and mechanisms (prefer clauses of the statement that none of these touch):\n' + '\n'.join('  - ' + u for u in used)
     ident = pid + tag
